@@ -166,6 +166,21 @@ def _builtin_table_escape(ctx, repo):
         raise AnalysisError('built-in table uses: only %d found' % n)
 
 
+def _inline_module_consts(mod, e):
+    """names bound once at module level to a string literal are replaced by the literal"""
+    class T(ast.NodeTransformer):
+        def visit_Name(self, n):
+            if isinstance(n.ctx, ast.Load):
+                try:
+                    v = mod.toplevel_assign(n.id)
+                except AnalysisError:
+                    return n
+                if isinstance(v, ast.Constant) and isinstance(v.value, str):
+                    return ast.Constant(value=v.value)
+            return n
+    return T().visit(symex.clone(e))
+
+
 def _abstract_literal(e):
     """the string an expression evaluates to, with hexadecimal renderings of a code point
     (HexstrN(..), hex(..), format(.., 'X'), '%X' % ..) abstracted to the digit '0'; None when the
@@ -358,7 +373,7 @@ def run(ctx):
         ok = bool(rets)
         lit = ''
         for r in rets:
-            al = _abstract_literal(r.value)
+            al = _abstract_literal(_inline_module_consts(m, r.value))
             if al is None:
                 ok = False
             else:
@@ -423,6 +438,51 @@ def run(ctx):
     ctx.rule('R13k', 'the built-in rule sets hand the checked tables to the encoder unchanged (table, copy or '
                      'read-only view)', 2)
     _table_passthrough(ctx, repo)
+
+    # ---- R13m: an empty replacement is a replacement
+    ctx.rule('R13m', 'the result of looking a character up in an encoder table that holds an empty replacement (U+2061) is '
+                     'compared with None, never tested by truthiness', 1)
+    from . import gcommon as _gc
+    has_empty = any(v_[0] == '' for v_ in load_map(repo, MAPS[0][1])[1].values())
+    n_tl = 0
+    for mod_ in sorted(repo.modules.values(), key=lambda m_: m_.name):
+        if not mod_.name.startswith('pylatexenc.latexencode'):
+            continue
+        for q_, f_ in sorted(mod_.functions.items()):
+            looked = {}
+            for st_ in iter_own(f_):
+                if isinstance(st_, ast.Assign) and len(st_.targets) == 1 and isinstance(st_.targets[0], ast.Name):
+                    v_ = st_.value
+                    src_ = None
+                    if isinstance(v_, ast.Call) and call_name(v_) == 'get' and call_recv(v_) is not None:
+                        src_ = unparse(call_recv(v_))
+                    elif isinstance(v_, ast.Subscript):
+                        src_ = unparse(v_.value)
+                    if src_ and any(w_ in src_ for w_ in ('utf82latex', 'uni2latex', 'ruledict')):
+                        looked[st_.targets[0].id] = src_
+            if not looked:
+                continue
+            for t_, where_ in _gc.truthiness_tests(f_):
+                x_ = t_.operand if isinstance(t_, ast.UnaryOp) and isinstance(t_.op, ast.Not) else t_
+                if isinstance(x_, ast.Name) and x_.id in looked:
+                    n_tl += 1
+                    ctx.decide('R13m', not has_empty, mod_, where_, 'table has no empty replacement',
+                               '%s tests %s (looked up in %s) by truthiness: the table maps U+2061 to the empty string, so '
+                               'that character is treated as having no rule -- `fail` raises although a rule exists and '
+                               '`replace` emits the placeholder' % (q_, x_.id, looked[x_.id]),
+                               construct='%s: truthiness of %s' % (q_, x_.id))
+    ctx.holds('R13m', m, None, '%d truthiness test(s) of a table lookup result' % n_tl, construct='table lookup truthiness scan',
+              trivial=True)
+
+    # ---- R13l (C04 R04l): protection of replacements that end with a control word
+    ctx.rule('R13l', 'the brace-protection schemes protect exactly the replacement texts that end with a control word '
+                     '(evaluated on probe texts): an unprotected one-letter macro fuses with the following letters into '
+                     'another macro, which does not parse or swallows the input\'s own characters (C04 R04l)', 2)
+    from . import c08 as _c08x
+    pa_, pb_ = meths.get('_apply_protection_braces'), meths.get('_apply_protection_braces_after_macro')
+    if pa_ is None or pb_ is None:
+        raise AnalysisError('anchor vanished: _apply_protection_braces(_after_macro)')
+    _c08x.protection_probes(ctx, 'R13l', m, pa_, pb_)
 
     return 'other', (
         'Evaluates both built-in tables entry by entry (%d entries) against the inertness '
